@@ -27,7 +27,8 @@ Theorem C12_error_poisons :
 Proof. exact @error_poisons. Qed.
 Theorem C12_poisoned_is_inert :
   forall (C : Type) (ctl : controller C) r op,
-    rw_poisoned r = true -> rw_ended r = false -> api_step ctl r op = (r, RPanicPoisoned).
+    rw_poisoned r = true -> rw_ended r = false ->
+    exists ended, api_step ctl r op = (mkRw (rw_stream r) true ended, RPanicPoisoned).
 Proof. exact @poisoned_is_inert. Qed.
 
 (* non-vacuity: a concrete run that ends successfully *)
